@@ -54,6 +54,8 @@ type srcSpec struct {
 	ZeroMax  int
 	ZeroRun  int
 	Endless0 bool
+	// ZerosBeforeErr empty reads (< 100) between the last data and the error
+	ZerosBeforeErr int
 }
 
 func (s srcSpec) err() error {
@@ -67,7 +69,7 @@ func (s srcSpec) err() error {
 }
 
 func (s srcSpec) desc() M {
-	return M{"len": s.Len, "err_at": s.ErrAt, "err": s.err().Error(), "err_with_data": s.WithData, "schedule": doubles.SchedNames[s.Sched], "zero_reads_max": s.ZeroMax, "zero_run_after_each_chunk": s.ZeroRun, "endless_zero_reads": s.Endless0}
+	return M{"len": s.Len, "err_at": s.ErrAt, "err": s.err().Error(), "err_with_data": s.WithData, "schedule": doubles.SchedNames[s.Sched], "zero_reads_max": s.ZeroMax, "zero_run_after_each_chunk": s.ZeroRun, "endless_zero_reads": s.Endless0, "zero_reads_before_the_error": s.ZerosBeforeErr}
 }
 
 // readerOpts selects what the runner observes beyond the cursor model.
@@ -275,7 +277,7 @@ func runReaderHistoryInner(cs *drv.Case, ops []rOp, spec srcSpec, o readerOpts) 
 		srcErr = io.EOF
 	} else {
 		src = &doubles.Source{Len: spec.Len, ErrAt: spec.ErrAt, Err: srcErr, WithData: spec.WithData, Sched: spec.Sched, ZeroMax: spec.ZeroMax, ZeroRun: spec.ZeroRun,
-			Endless0: spec.Endless0, R: cs.R, Budget: 10*spec.Len + 100000 + spec.ZeroRun*(spec.Len+100), Trace: cs.Tracef}
+			Endless0: spec.Endless0, ZerosBeforeErr: spec.ZerosBeforeErr, R: cs.R, Budget: 10*spec.Len + 100000 + spec.ZeroRun*(spec.Len+100), Trace: cs.Tracef}
 		if srcErr != io.EOF && cs.R.Intn(3) == 0 {
 			src.AfterErr = io.EOF // error once, plain EOF on later reads: the first error is the source's error
 		}
